@@ -307,7 +307,7 @@ func mutateBytes(r *Rng, b []byte) ([]byte, string) {
 }
 
 // applyMutation damages the closed directory; returns a class name.
-func applyMutation(r *Rng, dir string, cfg Config, uuids []string) string {
+func applyMutation(r *Rng, dir string, cfg Config, uuids []string, touched map[string]bool) string {
 	schemaPath := filepath.Join(dir, "schema.json")
 	suffix := cfg.Ext
 	if cfg.Compress {
@@ -323,7 +323,9 @@ func applyMutation(r *Rng, dir string, cfg Config, uuids []string) string {
 		if len(uuids) == 0 {
 			return "noop"
 		}
-		p := filepath.Join(dir, pick(r, uuids)+suffix)
+		tu := pick(r, uuids)
+		touched[tu] = true
+		p := filepath.Join(dir, tu+suffix)
 		b, _ := os.ReadFile(p)
 		nb, what := mutateBytes(r, b)
 		os.WriteFile(p, nb, 0o700)
@@ -347,6 +349,7 @@ func applyMutation(r *Rng, dir string, cfg Config, uuids []string) string {
 			return "noop"
 		}
 		u := pick(r, uuids)
+		touched[u] = true
 		content := pick(r, []string{`null`, `[]`, `"x"`, `{"I":"notanumber"}`, `{"T":"notatime"}`, `{"N":5}`, `{"I":1e400}`, `{"Tags":{"a":1}}`, `{}`, `{"I8":300}`})
 		x := []byte(content)
 		if cfg.Compress {
@@ -392,6 +395,94 @@ func applyMutation(r *Rng, dir string, cfg Config, uuids []string) string {
 			os.WriteFile(filepath.Join(dir, ".hidden"), []byte("x"), 0o600)
 			os.WriteFile(filepath.Join(dir, "schema.json.bak"), []byte("x"), 0o600)
 			return "stray:dotfiles"
+		}
+	}
+}
+
+// validResults: "an error of the documented class or a valid result". When only object files were
+// damaged (schema.json and the directory listing are as Close left them), a read that reports no
+// error must still account for every undamaged object: a result that silently lacks an undamaged
+// match, or holds an undamaged non-match, is neither an error nor a valid result. What the damaged
+// files contribute is not judged (their bytes may decode to anything).
+func (w *World) validResults(touched map[string]bool) {
+	judge := func(api, desc string, want map[string]bool, objs []sod.Object) {
+		got := map[string]bool{}
+		for _, o := range objs {
+			if o != nil {
+				got[o.UUID()] = true
+			}
+		}
+		stats.Count("valid_result_checks", 1)
+		for u := range want {
+			if !touched[u] && !got[u] {
+				w.fail("silently-partial-result", api, "-", fmt.Sprintf("%s reported no error but lacks the undamaged matching object %s (%d returned, %d undamaged matches)", desc, w.name(u), len(objs), len(want)))
+				return
+			}
+		}
+		for u := range got {
+			if _, live := w.m.objs[u]; live && !touched[u] && !want[u] {
+				w.fail("objects-not-matching", api, "-", fmt.Sprintf("%s returned the undamaged object %s which does not satisfy it", desc, w.name(u)))
+				return
+			}
+		}
+	}
+	all := map[string]bool{}
+	for u := range w.m.objs {
+		all[u] = true
+	}
+	var objs []sod.Object
+	var err error
+	w.guardedCall("All", func() { objs, err = w.db.All(&Rec{}) })
+	if w.failed() {
+		return
+	}
+	if err == nil {
+		judge("All", "All", all, objs)
+	}
+	qs := w.evaluable(w.queriesFor([]string{"I", "S", "K", "U64", "N.A", "Up", "T", "F64"}))
+	for i := 0; i < 24 && len(qs) > 0 && !w.failed(); i++ {
+		q := qs[w.rng.Intn(len(qs))]
+		want, ok := w.m.Eval(q)
+		if !ok {
+			continue
+		}
+		desc := q.String()
+		var q2 *Query
+		if w.rng.P(0.35) {
+			c := qs[w.rng.Intn(len(qs))]
+			if set, ok := w.m.Eval(c); ok {
+				q2 = &c
+				for u := range want {
+					if !set[u] {
+						delete(want, u)
+					}
+				}
+				desc += " AND " + c.String()
+			}
+		}
+		objs, err = nil, nil
+		w.guardedCall("Search", func() {
+			s := w.db.Search(&Rec{}, q.Path, q.Op, q.Probe)
+			if q2 != nil {
+				s = s.And(q2.Path, q2.Op, q2.Probe)
+			}
+			if err = s.Err(); err != nil {
+				return
+			}
+			objs, err = s.Collect()
+		})
+		if w.failed() {
+			return
+		}
+		if err == nil {
+			api := "Search(unindexed)"
+			if w.cfg.indexed(q.Path) {
+				api = "Search(indexed)"
+			}
+			if q2 != nil {
+				api += ".And"
+			}
+			judge(api, desc, want, objs)
 		}
 	}
 }
@@ -497,8 +588,13 @@ func runC19(k int, rng *Rng) CaseResult {
 	uuids := w.m.Live()
 	// 1-2 mutations
 	var muts []string
+	touched := map[string]bool{}
 	for i := 0; i < 1+rng.Intn(2); i++ {
-		muts = append(muts, applyMutation(rng, w.collDir(), cfg, uuids))
+		muts = append(muts, applyMutation(rng, w.collDir(), cfg, uuids, touched))
+	}
+	objectOnly := len(touched) > 0
+	for _, m := range muts {
+		objectOnly = objectOnly && (strings.HasPrefix(m, "object:") || m == "noop")
 	}
 	w.logf("mutations: %v", muts)
 	w.abs(fmt.Sprint(muts))
@@ -509,7 +605,12 @@ func runC19(k int, rng *Rng) CaseResult {
 	w.Open()
 	w.step++
 	stats.SetAdd("mutation_classes", strings.Join(muts, "+"))
-	w.battery(uuids)
+	if objectOnly {
+		w.validResults(touched)
+	}
+	if !w.failed() {
+		w.battery(uuids)
+	}
 	// the flusher may have died with the directory; make sure it is parked
 	clockSettle()
 	res := w.finish(w.absOps, true, nil)
